@@ -269,8 +269,11 @@ Definition est_inputs (c : counts) : Z :=
 
 Definition unit_counts (k : kind) : counts := add_kind k zero_counts.
 
-(** The initial guess is no larger than the estimate for any single input. *)
+(** The initial guess is a count vector and is no larger than the estimate for
+    any single input. *)
 Definition init_minimal (cf : cfg) : bool :=
-  forallb (fun k => est_inputs (cfg_init cf) <=? est_inputs (unit_counts k)) [P2PKH; P2TR; P2WPKH; NP2WPKH].
+  (0 <=? n_p2pkh (cfg_init cf)) && (0 <=? n_p2tr (cfg_init cf))
+  && (0 <=? n_p2wpkh (cfg_init cf)) && (0 <=? n_nested (cfg_init cf))
+  && forallb (fun k => est_inputs (cfg_init cf) <=? est_inputs (unit_counts k)) [P2PKH; P2TR; P2WPKH; NP2WPKH].
 
 Definition init_guess_minimal : bool := init_minimal generated_cfg.
